@@ -1165,7 +1165,15 @@ class FortranBackend(BaseBackend):
         if stop < len(code):
             code_tmp = code[start:stop]
             ops = ["+", "-", "*", "/", "**", "^", "%", "<", ">", "==", "!=", "<=", ">="]
-            indices = [code_tmp.index(op) for op in ops if op in code_tmp]
+
+            def first_index(op):
+                # first occurrence of `op` that is not the sign of a floating-point exponent (`2.0d-5`, `1.0e+16`)
+                i = code_tmp.find(op)
+                while op in ('+', '-') and i >= 2 and code_tmp[i - 1] in 'dDeE' and \
+                        (code_tmp[i - 2].isdigit() or code_tmp[i - 2] == '.'):
+                    i = code_tmp.find(op, i + 1)
+                return i
+            indices = [i for i in (first_index(op) for op in ops) if i >= 0]
             if indices and max(indices) > 0:
                 return max(indices) + start
             idx = start
